@@ -28,6 +28,8 @@ def cells_as_pairs(entity):
 
 
 COUPLED = {"dip": ("vertical",), "vertical": ("dip",), "parts": ("cells",), "cells": ("parts",),
+           "surveys": ("end_of_hole",),  # the survey setter moves the end of hole to the last survey depth
+
            "coordinate_reference_system": ("metadata",), "metadata": ("coordinate_reference_system",)}
 
 
@@ -112,7 +114,7 @@ class C03(Check):
             if owner == "workspace" and first == "version":
                 ws_kwargs["version"] = 2
                 ops = ops[1:]
-            elif owner == "object" and first in V.INT_AT_CREATION and V.has_setter(V.F.get_class(cname), first):
+            elif owner in ("object", "cobject") and first in V.INT_AT_CREATION and V.has_setter(V.F.get_class(cname), first):
                 extra[first] = V.INT_AT_CREATION[first]
                 ops = ops[1:]
         ws = Workspace.create(path, **ws_kwargs)
@@ -128,6 +130,12 @@ class C03(Check):
                 if owner == "workspace":
                     return None, wsp
                 e = wsp.get_entity(uid)[0]
+                if e is None and owner == "cdata":
+                    # concatenated data are loaded with their hole
+                    for grp in [g for g in wsp.groups if "DrillholeGroup" in type(g).__name__]:
+                        for hole in grp.children:
+                            for label in (hole.get_data_list() if hasattr(hole, "get_data_list") else []):
+                                e = next((c for c in hole.get_data(label) if c.uid == uid), e)
                 if e is None:
                     return None, None
                 return e, (e.entity_type if owner.endswith("type") else e)
@@ -235,7 +243,8 @@ class C03(Check):
             ws = Workspace(path, mode="r")
             ent2, target2 = locate(ws)
             if target2 is None:
-                res.fail(f"C03/entity-lost/{owner}/{cname}/", "entity not found after re-open")
+                res.fail(f"C03/entity-lost/{owner}/{cname}/" + "+".join(sorted(d[0] for d in done)),
+                         f"entity not found after re-open (assigned: {[d[0] for d in done]})")
                 return res
             for attr, want, getter, changed in done:
                 if getter is None:
@@ -255,8 +264,8 @@ class C03(Check):
                 fresh_snap = snap_entity(ent2)
                 fresh_type = snap_type(ent2.entity_type)
                 for key in sorted(set(live_snap) | set(fresh_snap)):
-                    if key == "type":
-                        continue
+                    if key == "type" or (owner == "cobject" and key in ("children", "n_child_entries")):
+                        continue  # (children of a concatenated hole are loaded on demand: not an attribute)
                     if live_snap.get(key) != fresh_snap.get(key):
                         res.fail(f"C03/memory-differs-from-file/{owner}/{cname}/{key}",
                                  f"after assigning {[d[0] for d in done]}: live {key}={live_snap.get(key)!r:.200} file {fresh_snap.get(key)!r:.200}")
